@@ -4,6 +4,9 @@
 //! One case = one whole history against a fresh `Server` (see lean/QV/Driver/Rrl.lean for the
 //! line format). What the code reads from its environment is recorded into the case line:
 //!   * `RandomState`: `verif_rrl_probe` gives bucket index / masked destination / QNAME hash;
+//!     probing four more fresh servers gives the *key class* of each response (which responses
+//!     the real code gives equal keys), so that a genuine bucket collision (different keys, same
+//!     index: documented, "old entry forgotten") can be told from a wrong key (streams merged);
 //!   * what the request handler produced before RRL (response or not, extended RCODE, OPT):
 //!     taken from a second `Server` with the same catalog and rate limiting off;
 //!   * `thread_rng` (slip ≥ 2): whether a limited response was observed slipped;
@@ -14,6 +17,10 @@
 //!     phase of its creation instant, so with less than a second of real time in total the whole
 //!     seconds seen by `process_response` are exactly the sum of the shifts: timing cannot flip
 //!     a decision.
+//!   * sub-second phases (does the refill keep the phase of the stream's first response?): a few
+//!     histories contain real sleeps `w<ms>`; they are built so that every request is at least
+//!     0.2 s away from a whole-second boundary of its bucket, the model runs on the nominal times,
+//!     and the history is discarded when the real clock ran more than `MAX_REAL` (0.15 s) ahead.
 #![allow(unused)]
 use crate::common::*;
 use quandary::class::Class;
@@ -30,7 +37,8 @@ use std::time::{Duration, Instant};
 
 type Cat = HashMapTreeCatalog<HashMapTreeZone, ()>;
 
-const MAX_REAL: Duration = Duration::from_millis(400);
+/// how far the real clock may run ahead of the nominal time of a history (sum of its `w` sleeps)
+const MAX_REAL: Duration = Duration::from_millis(150);
 
 // ------------------------------------------------------------------------------------------------
 // fixture: a tiny catalog that can provoke every RCODE class
@@ -218,6 +226,7 @@ impl Params {
 #[derive(Clone, Debug)]
 enum SStep {
     Shift(u64),
+    Wait(u64),
     Q { src: IpAddr, udp: bool, req: Vec<u8> },
 }
 
@@ -298,7 +307,19 @@ fn exec(p: &Params, steps: &[SStep]) -> Result<Option<Exec>, String> {
     let t_start = Instant::now();
     let mut server = Server::new(cat);
     server.set_rrl_params(Some(p.build()?));
+    // four more servers with the same parameters (table size 1031), never sent a request: two
+    // responses get the same key class iff all four fresh `RandomState`s put them in the same
+    // bucket (and masked destination and QNAME hash agree) — the identity of the *key* the real
+    // code computes, independent of collisions in the table under test (error < 10⁻¹²)
+    let key_probes: Vec<Server<Cat>> = (0..4).map(|_| {
+        let mut s = Server::new(catalog());
+        s.set_rrl_params(Some(Params { size: 1031, ..p.clone() }.build().unwrap()));
+        s
+    }).collect();
+    let mut sigs: Vec<(u64, u32, [usize; 4])> = Vec::new();
     let mut toks: Vec<String> = Vec::new();
+    let mut panicked = false;
+    let mut nominal = Duration::ZERO;
     let mut parts: Vec<String> = Vec::new();
     let mut idxs = Vec::new();
     let mut hashes = Vec::new();
@@ -312,6 +333,11 @@ fn exec(p: &Params, steps: &[SStep]) -> Result<Option<Exec>, String> {
                     SStep::Shift(secs) => {
                         server.verif_rrl_shift(*secs);
                         parts.push(format!("s{}", secs));
+                    }
+                    SStep::Wait(ms) => {
+                        std::thread::sleep(Duration::from_millis(*ms));
+                        nominal += Duration::from_millis(*ms);
+                        parts.push(format!("w{}", ms));
                     }
                     SStep::Q { src, udp, req } => {
                         let tr = if *udp { Transport::Udp } else { Transport::Tcp };
@@ -338,13 +364,34 @@ fn exec(p: &Params, steps: &[SStep]) -> Result<Option<Exec>, String> {
                             .expect("rrl enabled");
                         idxs.push(idx);
                         hashes.push(qhash);
+                        let mut four = [0usize; 4];
+                        for (i, ks) in key_probes.iter().enumerate() {
+                            four[i] = ks.verif_rrl_probe(canonical(*src), stream_name, ExtendedRcode::from(rcode)).unwrap().0;
+                        }
+                        let sig = (dest, qhash, four);
+                        let kc = match sigs.iter().position(|x| *x == sig) {
+                            Some(i) => i,
+                            None => { sigs.push(sig); sigs.len() - 1 }
+                        };
                         // the real thing
-                        let got = match server.handle_message(req, ReceivedInfo::new(*src, tr), &mut buf[..]) {
-                            Response::Single(n) => Some(n),
-                            Response::None => None,
+                        let got = std::panic::catch_unwind(std::panic::AssertUnwindSafe(|| {
+                            match server.handle_message(req, ReceivedInfo::new(*src, tr), &mut buf[..]) {
+                                Response::Single(n) => Some(n),
+                                Response::None => None,
+                            }
+                        }));
+                        let got = match got {
+                            Ok(g) => g,
+                            Err(_) => {
+                                // the real code panicked on this request: the history ends here,
+                                // the line still carries every recorded input
+                                panicked = true;
+                                None
+                            }
                         };
                         let mut rnd = false;
                         let tok = match (rlen, got) {
+                            _ if panicked => "panic".to_string(),
                             (None, None) => "none".to_string(),
                             (None, Some(_)) => "ghost".to_string(),
                             (Some(_), None) => {
@@ -376,22 +423,25 @@ fn exec(p: &Params, steps: &[SStep]) -> Result<Option<Exec>, String> {
                         toks.push(tok);
                         let hexname = |n: Option<&Name>| n.map(|n| hex(n.wire_repr())).unwrap_or_else(|| "-".into());
                         parts.push(format!(
-                            "q,{},{},{},{},{},{},{},{},{},{},{},{},{}",
+                            "q,{},{},{},{},{},{},{},{},{},{},{},{},{},{}",
                             src_hex(src), if *udp { "u" } else { "t" }, hex(req), opcode,
                             rlen.is_some() as u8, rcode, hexname(qname.as_deref()), hexname(sos),
-                            edns as u8, rnd as u8, idx, dest, qhash
+                            edns as u8, rnd as u8, idx, dest, qhash, kc
                         ));
+                        if panicked {
+                            break;
+                        }
                     }
                 }
             }
         })
     });
-    if t_start.elapsed() > MAX_REAL {
+    if t_start.elapsed() > nominal + MAX_REAL {
         return Ok(None);
     }
     Ok(Some(Exec {
         case: format!("rrl {} {}", p.text(), parts.join(";")),
-        result: format!("ok {}", toks.join(",")),
+        result: if panicked { "panic".to_string() } else { format!("ok {}", toks.join(",")) },
         pattern: (relabel(&idxs), relabel(&hashes)),
     }))
 }
@@ -420,9 +470,11 @@ fn parse_case(a: &[&str]) -> Option<(Params, Vec<SStep>, (Vec<usize>, Vec<usize>
     for s in a[8].split(';') {
         if let Some(n) = s.strip_prefix('s') {
             steps.push(SStep::Shift(n.parse().ok()?));
+        } else if let Some(n) = s.strip_prefix('w') {
+            steps.push(SStep::Wait(n.parse().ok()?));
         } else {
             let f: Vec<&str> = s.split(',').collect();
-            if f.len() != 14 || f[0] != "q" {
+            if f.len() != 15 || f[0] != "q" {
                 return None;
             }
             steps.push(SStep::Q { src: src_unhex(f[1])?, udp: f[2] == "u", req: unhex(f[3])? });
@@ -738,6 +790,36 @@ fn gen_pair(rng: &mut Rng) -> (Params, Vec<SStep>) {
     (p, steps)
 }
 
+/// C26, sub-second phase: requests at t₀, t₀ + 1.6 s, t₀ + 2.3 s … (shift + real sleeps). The
+/// bucket's ticks are at t₀ + n·1 s, so every request is ≥ 0.2 s away from a tick.
+fn gen_phase_history(rng: &mut Rng) -> (Params, Vec<SStep>) {
+    let rate = rng.range(1, 2) as u32;
+    let window = rng.range(1, 2) as u32;
+    let p = Params { ne: rate, nx: rate, er: rate, window, slip: *rng.pick(&[0usize, 1]), v4len: 24, v6len: 56, size: 65537 };
+    let class = *rng.pick(&[0usize, 1, 2, 3]);
+    let req = gen_request(rng, class);
+    let src = gen_src(rng);
+    let cap = (rate * window) as usize;
+    let mut steps = Vec::new();
+    let mut burst = |steps: &mut Vec<SStep>, n: usize| {
+        for _ in 0..n {
+            steps.push(SStep::Q { src, udp: true, req: req.clone() });
+        }
+    };
+    burst(&mut steps, cap + rng.below(2));           // exhaust (or nearly) at t₀
+    let w1 = rng.range(550, 700) as u64;              // t₀ + 0.55‥0.70
+    steps.push(SStep::Wait(w1));
+    if rng.chance(1, 2) {
+        burst(&mut steps, 1);                         // still inside the first second
+    }
+    steps.push(SStep::Shift(rng.range(1, 3) as u64)); // whole seconds: frac unchanged
+    burst(&mut steps, rate as usize * 3 + 1);         // refilled by the ticks so far, exhausted again
+    let w2 = 1250 - w1 + rng.below(100) as u64;       // nominal frac 0.25‥0.35 of the *next* second
+    steps.push(SStep::Wait(w2));
+    burst(&mut steps, rate as usize + 1);             // one more tick must have happened
+    (p, steps)
+}
+
 fn emit_history(p: &Params, steps: &[SStep], em: &mut Emitter, discarded: &mut u64) {
     for _ in 0..5 {
         match guarded_exec(p, steps) {
@@ -750,7 +832,8 @@ fn emit_history(p: &Params, steps: &[SStep], em: &mut Emitter, discarded: &mut u
                 // configuration error or panic: the case line carries the script without probes
                 let parts: Vec<String> = steps.iter().map(|s| match s {
                     SStep::Shift(n) => format!("s{}", n),
-                    SStep::Q { src, udp, req } => format!("q,{},{},{},0,0,0,-,-,0,0,0,0,0", src_hex(src), if *udp { "u" } else { "t" }, hex(req)),
+                    SStep::Wait(n) => format!("w{}", n),
+                    SStep::Q { src, udp, req } => format!("q,{},{},{},0,0,0,-,-,0,0,0,0,0,0", src_hex(src), if *udp { "u" } else { "t" }, hex(req)),
                 }).collect();
                 em.emit(&format!("rrl {} {}", p.text(), parts.join(";")), &e);
                 return;
@@ -790,6 +873,19 @@ pub fn gen_group(group: &str, rng: &mut Rng, thorough: bool, em: &mut Emitter) {
                 Params { ne: 65537, window: 65535, ..one.clone() },
             ] {
                 emit_history(&bad, &[q("a.example.")], em, &mut discarded);
+            }
+            // sub-second phases: real sleeps, so run them side by side
+            let k = if thorough { 64 } else { 16 };
+            let scripts: Vec<(Params, Vec<SStep>)> = (0..k).map(|_| gen_phase_history(rng)).collect();
+            let results: Vec<Result<Option<Exec>, String>> = std::thread::scope(|s| {
+                let hs: Vec<_> = scripts.iter().map(|(p, st)| s.spawn(move || guarded_exec(p, st))).collect();
+                hs.into_iter().map(|h| h.join().unwrap_or(Err("panic".into()))).collect()
+            });
+            for ((p, steps), r) in scripts.iter().zip(results) {
+                match r {
+                    Ok(Some(x)) => em.emit(&x.case, &x.result),
+                    _ => emit_history(p, steps, em, &mut discarded), // drifted or failed: once more, alone
+                }
             }
             let n = if thorough { 60_000 } else { 6_000 };
             for _ in 0..n {
